@@ -133,8 +133,8 @@ pub fn run_mem_family(ctx: &Ctx, fam: &MemFamily) -> Stats {
                       // second planted unit (ASCII filler only): in the same stride as the first, and
                       // exactly 16 / 32 / 64 units after it
                       let mut seconds: Vec<Option<(usize, usize)>> = vec![None];
-                      if fk == 0 && cls < nclasses {
-                          for d in [1usize, 2, 5, 15, 16, 17, 32, 64] {
+                      if (fk == 0 || fk >= 4) && cls < nclasses {
+                          for d in [1usize, 2, 3, 4, 5, 15, 16, 17, 32, 64] {
                               if pos + d < len && (pos + d) % 3 == cls % 3 {
                                   seconds.push(Some(((cls * 7 + pos + d) % nclasses, pos + d)));
                               }
@@ -435,7 +435,7 @@ pub fn run_mem_family(ctx: &Ctx, fam: &MemFamily) -> Stats {
         total.merge(st3);
         total.exhaustive.push(format!("UTF-8-source functions: the UTF-8 table sweep (every lead x second pair, every three-byte string, four-byte leads x second x third), {} valid characters x {} near-valid sequences x both orders x {} embeddings, pairs of near-valid sequences; UTF-16-source functions: all pairs of {} boundary units x {} layouts", reps.len(), near.len(), memgen::PAIR_EMBED.len(), memgen::UNIT_EDGES16.len(), layouts16.len()));
     }
-    total.exhaustive.push(format!("per mem function: source lengths 0..={} x 4 fillers x every planted unit class at every position (plus, in ASCII filler, a second planted unit 1/2/5/15/16/17/32/64 units later) x alignments {:?} x destination lengths around the planted position and the documented size", fam.max_len, fam.aligns));
+    total.exhaustive.push(format!("per mem function: source lengths 0..={} x 4 fillers x every planted unit class at every position (plus, in ASCII filler of letters, spaces or punctuation, a second planted unit 1/2/3/4/5/15/16/17/32/64 units later) x alignments {:?} x destination lengths around the planted position and the documented size", fam.max_len, fam.aligns));
     if fw::should_stop() {
         return total;
     }
